@@ -278,6 +278,23 @@ pub fn build(
         );
     };
 
+    // the parameter list is emitted as it is: names have to be distinct
+    for (index, a) in function.arguments.iter().enumerate() {
+        match a {
+            grammar::Argument::Named(name, _)
+                if function.arguments[..index]
+                    .iter()
+                    .any(|b| matches!(b, grammar::Argument::Named(other, _) if other == name)) =>
+            {
+                anyhow::bail!(
+                    "function `{}` has more than one parameter named `{name}`",
+                    function.name
+                );
+            }
+            _ => {}
+        }
+    }
+
     let mut arguments = vec![];
     for a in &function.arguments {
         arguments.push(match a {
